@@ -51,7 +51,7 @@ CHECKS = {
   ref="DESIGN.md §4 C13"),
  "C18": dict(
   technique="static analysis: interprocedural must-lockset (guarded-by table with modes and frozen exceptions), type/atomic discipline inventory, write-once inventory, copy-on-write taint",
-  text="The lock discipline the code declares is decided for every access: 15 guarded fields are only touched with their lock held (writes exclusively) outside construction and three reasoned exceptions; shared registries keep their concurrency-safe types and counters are sync/atomic-only; request fields read without the mutex are written only at construction; ClientConn.codec only through atomic.Value; the load balancer's published slice is never written through.",
+  text="The lock discipline the code declares is decided for every access: 15 guarded fields are only touched with their lock held (writes exclusively) outside construction (recognised by a pre-publication predicate) and two reasoned exceptions; shared registries keep their concurrency-safe types and counters are sync/atomic-only; request fields read without the mutex are written only at construction; ClientConn.codec only through atomic.Value; the load balancer's published slice is never written through.",
   note="This is not a happens-before analysis: never-locked state (client.codec/keyspace, Cluster state confined to one goroutine) and ordering by channels/WaitGroups are not decided; a dynamic race detector is the tool for those.",
   ref="DESIGN.md §4 C18"),
  "C02": dict(
@@ -76,7 +76,7 @@ CHECKS = {
   ref="DESIGN.md §4 C06"),
  "C17": dict(
   technique="static analysis: call-graph reachability from the network-facing entry points + panic-site inventory with a bound/typed-container guard analysis and a frozen reasoned table; nil-result/nil-store rules; channel-send discipline; error-flow ownership",
-  text="Every instruction that can panic or exit (explicit panic, unchecked type assertion, index/slice without established bound, integer division by a variable, Fatal/os.Exit) in the 211 repo functions reachable from the entry points for client frames, backend frames/events, connection loss and topology events is either discharged by the guard analysis (dominating length tests, range indices, typed sync.Map/atomic.Value containers, sort.Slice callbacks) or one of 22 reviewed sites with a reason; (nil, nil)-returning functions are nil-tested by callers; only successfully created pools are stored; a receiver error closes only its own connection and decode errors are returned; every channel send is non-blocking, has a closed/done alternative, or is reasoned; the retry loop cannot spin.",
+  text="Every instruction that can panic or exit (explicit panic, unchecked type assertion, index/slice without established bound, integer division by a variable, Fatal/os.Exit) in the repository functions reachable (through library callbacks too) from the entry points for client frames, backend frames/events, connection loss and topology events is either discharged by the guard analysis (dominating length tests, range indices, typed sync.Map/atomic.Value containers, sort.Slice callbacks) or one of the reviewed sites listed with a reason; (nil, nil)-returning functions are nil-tested by callers; only successfully created pools are stored; a receiver error closes only its own connection and decode errors are returned; every channel send is non-blocking, has a closed/done alternative, or is reasoned; the retry loop cannot spin.",
   note="Trusted: library decoders, the generated scanner. Not covered: memory exhaustion, liveness in general, fuzzing-style input coverage (inputs quantifier); a frozen-table site whose guard is later removed is not re-derived.",
   ref="DESIGN.md §4 C17"),
  "C20": dict(
@@ -116,6 +116,11 @@ def main():
         if not c:
             na.append({"property_id": pid, "reason": NOT_APPLICABLE.get(pid, NOT_YET)})
             continue
+        c = dict(c)
+        c["text"] = c["text"] + ADDENDA.get(pid, "")
+        if pid in NOTE_FIXES:
+            a, b = NOTE_FIXES[pid]
+            c["note"] = c["note"].replace(a, b)
         checks.append({
             "property_id": pid,
             "quick_cmd": f"./check.sh {pid} quick",
@@ -144,10 +149,40 @@ def main():
         }],
         "checks": checks,
         "not_applicable": na,
-        "notes": "All claims are at level 'other': structural necessary conditions decided statically on every path of the resolved program. Genuine defects found on the pinned tree were repaired in /repo with 'fix:' commits and are listed in /verif/known_findings.json.",
+        "notes": "All claims are at level 'other': structural necessary conditions decided statically on every path of the resolved program. Genuine defects found on the pinned tree (31) were repaired in /repo with 'fix:' commits; one more (three call sites, C17) is recorded as a known finding; all are listed in /verif/known_findings.json.",
     }
     json.dump(m, open("/verif/MANIFEST.json", "w"), indent=1)
     print("MANIFEST.json:", len(checks), "checks,", len(na), "not applicable")
+
+
+# second-generation rules (DESIGN.md section 4, "Rules added after the second round")
+ADDENDA = {
+ "C01": " Also decided: a same-host re-send consumes a per-request budget (bounded re-sends across activations); the hand-over function fails only if the request was neither queued nor left registered; the reply write either queues or has seen the connection closed; the closing notification claims an entry before notifying it.",
+ "C02": " Also decided: nobody writes into the frame object a request hands out (the sender encodes a private copy carrying its stream id); a stream id is released only for a frame just received, after a failed write of that registration, or for a dead connection; at most one frame per request (shared with C01).",
+ "C03": " Also decided: on the delivery path of a backend reply the proxy never substitutes a message of its own (except plan exhaustion in the host walk).",
+ "C04": " Also decided: a failed hand-over left nothing queued or registered (so trying the next host is not a re-execution); prepared-statement metadata is stored before the PREPARED result is written to the client.",
+ "C05": " Also decided: the retry counter is advanced only by policy decisions in the error-result handler; the plan's position sum cannot wrap within a traversal.",
+ "C06": " Also decided: the entry points pass the statement text to the lexer only; every recursive cycle of the parser passes a depth guard.",
+ "C07": " Also decided: a helper that builds the session key leaves keyspace, version and compression as given.",
+ "C08": " Also decided: cached and replayed PREPARE frames are decoded and encoded again (plain in the cache; with the protocol version of the connection that reported UNPREPARED on replay).",
+ "C09": " Also decided: the handled/not-handled decision is taken from tokens only (no tests on the raw statement text).",
+ "C10": " Also decided: every node gets its token slot in the assignment loop; advertised column metadata is never written through; PREPARE and QUERY/EXECUTE resolve selectors against the same column tables (plain and DSE).",
+ "C11": " Also decided: the frame body reader is only moved by reading (no computed Seek); undefined negative value lengths are rejected.",
+ "C12": " Also decided: the re-encoding uses the client connection's own codec; prepared metadata is stored before the PREPARED result is delivered.",
+ "C13": " Also decided: every lookup in a compression codec table lower-cases the name (client side and backend handshake agree).",
+ "C14": " Also decided: each registered client gets a frame object of its own.",
+ "C15": " Also decided: offset+index is summed wider than the counters; the rotating counter is only advanced by one; an announced host that is already listed is not listed twice.",
+ "C16": " Also decided: a host announced again keeps its pool in service (the new pool is the one cancelled).",
+ "C17": " Also decided: reachability walks through library callbacks (partial codecs included); slice-to-array conversions; the body reader's position invariant; bounded parser recursion; writes to a client's connection from goroutines serving other connections must be bounded (three call sites are recorded known findings).",
+ "C18": " Also decided: a field locked in two functions is locked everywhere (fields outside the table too); no field store after an object was published to a shared registry; the client connection's codec only through atomic.Value; request fields read without the mutex have no late writes (by inventory, not by name).",
+ "C20": " Also decided: consistency-level options are written only by the option parser and by copying literals (no re-defaulting on the zero value, which is ANY); no backend configured is refused (simulation cell).",
+}
+NOTE_FIXES = {
+ "C01": ("; the residual window in ClientConn.Send where a request stays registered after its write failed", "; a client that stops reading while staying connected (recorded C17 finding)"),
+ "C08": ("version/compression of the replayed PREPARE frame", "whether the backend assigns the same id to the re-prepared statement"),
+ "C15": ("fairness counts, uint32 wrap, schedules", "fairness counts, consecutive plans at the 2^32 counter boundary, schedules"),
+ "C18": ("never-locked state (client.codec/keyspace, Cluster state confined to one goroutine)", "never-locked state that relies on confinement (client.keyspace/compression, Cluster state confined to one goroutine)"),
+}
 
 NOT_APPLICABLE = {}
 
